@@ -4,9 +4,10 @@ import Obao.Model.ACLSpec
 Driver stream `acl` (stateful). Lines (tab-separated fields):
 
 * `policy <name> <rule>…` — parse one policy (the `parsePaths` post-processing); answers `ok <parsed rule>&…` or `err:<class>`.
-  rule = `pathhex|caps|legacy|min|max|allowed|denied|required|pag`
+  rule = `pathhex|caps|legacy|min|max|allowed|denied|required|pag|exp` (exp = seconds relative to now, `-` = none)
 * `reparse <name> <rule>…` — is the parse result of this policy text independent of Go's map iteration order?
-* `attach <slot> <mode> <i,j,…>` — `NewACL` over the policies with these indices (`n` = nil entry) into a slot
+* `attach <slot> <mode> <i,j,…> <overrides>` — `NewACL` (at now = 0) over the policies with these indices (`n` = nil
+  entry) into a slot; overrides `k:i:off;…` first set `Paths[i].Expiration` of the k-th attached object to now+off
 * `allow <slot> <cc> <op> <pathhex> <data> <wrap>` — `AllowOperation`
 * `caps <slot> <pathhex>` — `Capabilities`
 -/
@@ -55,7 +56,7 @@ def parseOptInt (s : String) : Option (Option Int) :=
 
 def parseSrcRule (s : String) : Option SrcRule :=
   match s.splitOn "|" with
-  | [p, caps, legacy, mn, mx, al, de, rq, pag] => do
+  | [p, caps, legacy, mn, mx, al, de, rq, pag, ex] => do
     let path ← hexPath? p
     let minTTL ← parseOptInt mn
     let maxTTL ← parseOptInt mx
@@ -63,8 +64,9 @@ def parseSrcRule (s : String) : Option SrcRule :=
     let denied ← parsePMap de
     let required ← (parseCsv rq).mapM parseHexStr?
     let pag ← pag.toInt?
+    let expiration ← parseOptInt ex
     pure { path, caps := parseCsv caps, legacy := if legacy = "-" then "" else legacy, minTTL, maxTTL,
-           allowed, denied, required, pag }
+           allowed, denied, required, pag, expiration }
   | _ => none
 
 /-- insertion sort of a parameter map by key (the harness sorts Go map keys) -/
@@ -83,7 +85,8 @@ def showRule (r : PathRule) : String :=
   let kind := if r.hasSW then "S" else if r.isPrefix then "P" else "E"
   let p := r.perms
   "|".intercalate [toHex r.path, kind, toString p.caps, toString p.minTTL, toString p.maxTTL, showPMap p.allowed,
-    showPMap p.denied, (if p.required.isEmpty then "-" else ",".intercalate (p.required.map strToHex)), toString p.pag]
+    showPMap p.denied, (if p.required.isEmpty then "-" else ",".intercalate (p.required.map strToHex)), toString p.pag,
+    (match r.expiration with | none => "-" | some e => if e > 0 then "fut" else "past")]
 
 def showParseErr : ParseErr → String
   | .plusStar => "err:plusstar" | .badPolicy => "err:badpolicy" | .badCap => "err:badcap" | .ttl => "err:ttl"
@@ -117,13 +120,28 @@ def parseIdx (pols : List (Option Policy)) (s : String) : Option (Option Policy)
     | some (some p) => some (some p)
     | _ => none
 
+/-- `k:i:off` — set `Paths[i].Expiration` of the k-th attached policy object to now+off seconds (`z` = the zero time) -/
+def parseOverride (s : String) : Option (Nat × Nat × Option Int) :=
+  match s.splitOn ":" with
+  | [k, i, off] => do
+    let k ← k.toNat?
+    let i ← i.toNat?
+    let off ← if off = "z" then some none else off.toInt?.map some
+    pure (k, i, off)
+  | _ => none
+
+def applyOverride (ps : List (Option Policy)) (ov : Nat × Nat × Option Int) : List (Option Policy) :=
+  ps.mapIdx fun k p => if k = ov.1 then
+      p.map fun p => { p with paths := p.paths.mapIdx fun i r => if i = ov.2.1 then { r with expiration := ov.2.2 } else r }
+    else p
+
 def step (spec : Bool) (st : St) (fs : List String) : St × String :=
   match fs with
   | "policy" :: name :: rules =>
     match rules.mapM parseSrcRule with
     | none => (st, "bad-op")
     | some rs =>
-      match parsePolicy name rs with
+      match parsePolicy 0 name rs with
       | .error e => ({ st with pols := st.pols ++ [none] }, showParseErr e)
       | .ok p => ({ st with pols := st.pols ++ [some p] },
                   "ok " ++ (if p.paths.isEmpty then "-" else "&".intercalate (p.paths.map showRule)))
@@ -131,21 +149,23 @@ def step (spec : Bool) (st : St) (fs : List String) : St × String :=
     match rules.mapM parseSrcRule with
     | none => (st, "bad-op")
     | some rs => (st, if parseStable rs then "stable" else "unstable")
-  | ["attach", slot, _mode, idxs] =>
-    match slot.toNat?, (if idxs = "-" then some [] else (idxs.splitOn ",").mapM (parseIdx st.pols)) with
-    | some slot, some ps =>
-      let r := newACL ps
+  | ["attach", slot, _mode, idxs, ovs] =>
+    match slot.toNat?, (if idxs = "-" then some [] else (idxs.splitOn ",").mapM (parseIdx st.pols)),
+        (if ovs = "-" then some [] else (ovs.splitOn ";").mapM parseOverride) with
+    | some slot, some ps, some ovs =>
+      let ps := ovs.foldl applyOverride ps
+      let r := newACL 0 ps
       ({ st with slots := (slot, ps, r) :: st.slots.filter (·.1 != slot) },
        if spec then (if attachable ps then "ok" else "err:root")
        else match r with | .ok _ => "ok" | .error .rootWithOthers => "err:root")
-    | _, _ => (st, "bad-op")
+    | _, _, _ => (st, "bad-op")
   | ["allow", slot, cc, op, path, data, wrap] =>
     match slot.toNat?, parseOp op, hexPath? path, parseData data, parseOptInt wrap with
     | some slot, some op, some path, some data, some wrapTTL =>
       match st.slots.lookup slot, (if cc = "0" then some false else if cc = "1" then some true else none) with
       | some (ps, .ok a), some cc =>
-        if spec && !wfRules (rulesOf ps) then (st, "n/a") else
-        (st, showRes (if spec then specAllow ps { path, op, data, wrapTTL } cc
+        if spec && !wfRules (rulesOf 0 ps) then (st, "n/a") else
+        (st, showRes (if spec then specAllow 0 ps { path, op, data, wrapTTL } cc
                       else allowOperation a { path, op, data, wrapTTL } cc))
       | _, _ => (st, "bad-op")
     | _, _, _, _, _ => (st, "bad-op")
@@ -154,8 +174,8 @@ def step (spec : Bool) (st : St) (fs : List String) : St × String :=
     | some slot, some path =>
       match st.slots.lookup slot with
       | some (ps, .ok a) =>
-        if spec && !wfRules (rulesOf ps) then (st, "n/a") else
-        (st, ",".intercalate (if spec then specCapabilities ps path else capabilities a path))
+        if spec && !wfRules (rulesOf 0 ps) then (st, "n/a") else
+        (st, ",".intercalate (if spec then specCapabilities 0 ps path else capabilities a path))
       | _ => (st, "bad-op")
     | _, _ => (st, "bad-op")
   | _ => (st, "bad-op")
